@@ -196,6 +196,39 @@ def build_rec(n):
 r = CompoundTask(build_rec, 4)
 # the type of r's value is defined below the line that creates r
 Rec = collections.namedtuple('Rec', 'a b')
+# building functions whose result is not a single task: plain values of several types (with inner tasks created on the way), containers mixing
+# tasks and plain values, a mapped sequence
+import numpy as np
+from jug.mapreduce import map as jmap
+def build_str(n):
+    part(n)
+    return 'report-%d.txt' % n
+def build_arr(n):
+    return np.arange(n) * 2
+def build_set(n):
+    return {1, n}
+def build_range(n):
+    return range(n)
+def build_mixed(n):
+    return (part(n), 'label', [part(n + 1), 2.5], {'k': part(n + 2)})
+def build_none(n):
+    part(n + 10)
+    return None
+def build_bytes(n):
+    return b'ab' * n
+def double(x):
+    _note('double')
+    return 2 * x
+def build_map(n):
+    return jmap(double, list(range(n)), map_step=2)
+v1 = CompoundTask(build_str, 3)
+v2 = CompoundTask(build_arr, 3)
+v3 = CompoundTask(build_set, 3)
+v4 = CompoundTask(build_range, 3)
+v5 = CompoundTask(build_mixed, 3)
+v6 = CompoundTask(build_none, 3)
+v7 = CompoundTask(build_bytes, 2)
+v8 = CompoundTask(build_map, 5)
 '''
 
 KWPROBE = '''import json, sys
@@ -204,7 +237,7 @@ from jug.task import value
 store, space = jug.init('jugfile.py', 'jugfile.jugdata')
 names = sorted(t.name.split('.')[-1] for t in jug.task.alltasks)
 vals = {}
-for k in ('c1', 'c2', 'c3', 'c4', 'c5', 'r'):
+for k in ('c1', 'c2', 'c3', 'c4', 'c5', 'r', 'v1', 'v2', 'v3', 'v4', 'v5', 'v6', 'v7', 'v8'):
     try:
         vals[k] = repr(value(space[k]))
     except Exception as e:
@@ -225,7 +258,9 @@ def kwargs_and_late_types_family(run, scratch):
     rp = {'kind': 'kw-compound'}
     run.case(('kw-compound',), nontrivial=True)
     run.count('kw_compound_histories')
-    want = {'c1': '3', 'c2': '6', 'c3': '11', 'c4': '11', 'c5': '3', 'r': "Rec(a=4, b='4')"}
+    want = {'c1': '3', 'c2': '6', 'c3': '11', 'c4': '11', 'c5': '3', 'r': "Rec(a=4, b='4')",
+            'v1': "'report-3.txt'", 'v2': 'array([0, 2, 4])', 'v3': '{1, 3}', 'v4': 'range(0, 3)', 'v5': "(3, 'label', [4, 2.5], {'k': 5})", 'v6': 'None', 'v7': "b'abab'",
+            'v8': '[0, 2, 4, 6, 8]'}
 
     def probe():
         env = dict(os.environ, PYTHONPATH=core.REPO + os.pathsep + os.environ.get('PYTHONPATH', ''))
@@ -248,7 +283,7 @@ def kwargs_and_late_types_family(run, scratch):
     if p1['values'] != want:
         run.fail('compound-value', 'after execute the compounds have the values %s; their building functions give %s (c2..c5 differ from c1 only in keyword arguments; r is of a type defined below it)' % (p1['values'], want), rp)
         return
-    inner = [n for n in p1['names'] if n in ('part', 'total', 'make_rec')]
+    inner = [n for n in p1['names'] if n in ('part', 'total', 'make_rec', 'double', '_jug_map')]
     if inner:
         run.fail('inner-after-collapse', 'after a complete execute, loading the jugfile still creates inner tasks %s' % inner, rp)
     for cmd in (['status', 'jugfile.py', '--will-cite'], ['check', 'jugfile.py', '--will-cite']):
